@@ -337,7 +337,7 @@ SPECS["C04"] = dict(
 
 def c13_jobs(tier):
     quick = tier == "quick"
-    q = [dict(harness="sym_glue", pattern=r"^nevadj/", label="restart-size function (symmetric), all (nev,ncv) with ncv<=8, ncv-nev<=4; restart() itself for ncv<=%d" % (4 if quick else 5), deadline=200, sanitize=True,
+    q = [dict(harness="sym_glue", pattern=r"^nevadj/", label="restart-size function (symmetric), all (nev,ncv) with ncv<=8, ncv-nev<=4; restart() itself for ncv<=%d" % (4 if quick else 5), deadline=(200 if quick else 900), sanitize=True,
               env=({"VERIF_NEVADJ_RESTART_MAX": "4"} if quick else None)),
          dict(harness="gen_glue", pattern=(r"^gennevadj/k\dm[3-4]/" if quick else r"^gennevadj/"), label="restart-size function (general), ncv<=4 (thorough 8), ncv-nev<=4", deadline=(200 if quick else 900), sanitize=True),
          dict(harness="sym_glue", pattern=(r"^sym/n3k1m2/LargestMagn/LargestAlge/maxit[12]/ic$|^sym/n4k2m3/LargestMagn/LargestAlge/maxit0/ic$|^sym/n6k2m5/LargestMagn/LargestAlge/maxit0/ic$" if quick else
